@@ -253,6 +253,11 @@ func rebuild(t *Term, na []*Term) *Term {
 		return mkOr(na)
 	case "len":
 		return Len(na[0])
+	case "deref":
+		// reading a captured variable that has a single assignment
+		if len(na) == 1 && na[0].Op == "cell" && len(na[0].Args) == 1 {
+			return na[0].Args[0]
+		}
 	case "ite":
 		if na[0].Key() == tTrue.Key() {
 			return na[1]
